@@ -235,6 +235,7 @@ template <class Dom> struct fuzz {
     for (long a = lo; a <= hi; a++) for (long b = lo; b <= hi; b++) for (long c = lo; c <= hi; c++) for (long e = lo; e <= hi; e++) { cstate s = {a, b, c, e, 0, 0}; cs.insert(s); if (use_bool) { s[NV] = 1; cs.insert(s); s[NV + 1] = 1; cs.insert(s); s[NV] = 0; cs.insert(s); } }
     cap(cs, r);
     if (!check(d, cs, "init")) return false;
+    if (getenv("VPSTART")) { log("value_partition_start(a)"); d.intrinsic("value_partition_start", {z_var_or_cst_t(v[0])}, {}); }   // for the value partitioning domain
     for (int i = 0; i < steps; i++) if (!step(d, cs, 0)) return false;
     return true;
   }
